@@ -7,6 +7,7 @@
   at the end is covered by the paving.  No Mathlib import.
 -/
 import IbexModel.Box
+import IbexModel.Expr
 namespace Ibex.Cover
 open Ibex
 
@@ -127,6 +128,41 @@ def check (cert : Box → Box × Box × List Nat → Bool) (pv : Paving) (log : 
 def checkOk (cert : Box → Box × Box × List Nat → Bool) (pv : Paving) (root : Box) (log : List Ev) : Bool :=
   match log with
   | .push b :: _ => b == root && (match check cert pv log with | .ok _ => true | .error _ => false)
+  | _ => false
+
+/-! ### the other run-time rules on the output of the solver -/
+
+/-- the enclosure `z` of a value proves the sign condition `spec` (`leq`: ≤ 0, `lt`: < 0, `geq`: ≥ 0, `gt`: > 0) -/
+def signProved (spec : String) (z : Itv) : Bool :=
+  match z, spec with
+  | .mk _ hi, "leq" => Ext.le hi (.fin 0)
+  | .mk _ hi, "lt" => Ext.lt hi (.fin 0)
+  | .mk lo _, "geq" => Ext.le (.fin 0) lo
+  | .mk lo _, "gt" => Ext.lt (.fin 0) lo
+  | _, _ => false
+
+/-- interval evaluation of a constraint over a box proves it for every point (C02 `root_encl`) -/
+def provedOnBox (funs : List Dag) (dag : Dag) (spec : String) (box : Box) : Bool :=
+  match Eval.root Alg.itv box (Eval.buildCalls Alg.itv funs) dag with
+  | some v => v.d.all (signProved spec)
+  | none => false
+
+/-- an inner box: every constraint is proved on the whole box -/
+def innerOk (cs : List ((List Dag × Dag) × String)) (box : Box) : Bool :=
+  cs.all fun x => provedOnBox x.1.1 x.1.2 x.2 box
+
+/-- an unknown box: every component is narrower than (or equal to) eps_min, or cannot be bisected -/
+def unknownSmall (b : Box) (eps : List Ext) : Bool :=
+  b.length == eps.length && (List.zip b eps).all fun q => Ext.le (Box.diamUp q.1) q.2 || !Box.bisectable q.1
+
+/-- the status returned by the solver agrees with the numbers of boxes of each kind in its output -/
+def statusOk (st : String) (nsol nbnd nunk npend ninner : Nat) : Bool :=
+  match st with
+  | "SUCCESS" => nunk == 0 && npend == 0
+  | "INFEASIBLE" => nsol + nbnd + nunk + npend + ninner == 0
+  | "NOT_ALL_VALIDATED" => npend == 0 && nunk > 0
+  | "CELL_OVERFLOW" => true
+  | "TIME_OUT" => true
   | _ => false
 
 end Ibex.Cover
